@@ -385,7 +385,10 @@ func validateSubpictureParts(parts subpictureParts, format *DecimalFormat) error
 		}
 	}
 
-	exponents := strings.Count(parts.Picture, string(format.ExponentSeparator))
+	// An exponent separator in the prefix or suffix is a
+	// passive character: only count the ones in the active
+	// part of the subpicture.
+	exponents := strings.Count(parts.Active, string(format.ExponentSeparator))
 	if exponents > 1 {
 		return fmt.Errorf("a subpicture cannot contain more than one exponent separator")
 	}
